@@ -232,6 +232,22 @@ Definition format_register (c : ctx_table) (rf : regfile) (n : name) : outcome n
 Definition hex_digit_val (b : Z) : Z := if b <? 58 then b - 48 else b - 87.
 Definition hex_val (s : name) : Z := fold_left (fun a b => a * 16 + hex_digit_val b) s 0.
 
+(* a sequence of set_register calls, in order: a name the context does not know is refused (None) and leaves the
+   context as it is; [last_write] is what the sequence wrote last through any spelling of m's register *)
+Fixpoint apply_writes (c : ctx_table) (rf : regfile) (ops : list (name * Z)) : outcome regfile :=
+  match ops with
+  | [] => Ret rf
+  | (n, v) :: r => do o <- set_reg c rf n v;
+                   match o with Some rf' => apply_writes c rf' r | None => apply_writes c rf r end
+  end.
+Definition opt_name_eqb (a b : option name) : bool :=
+  match a, b with Some x, Some y => name_eqb x y | None, None => true | _, _ => false end.
+Fixpoint last_write (c : ctx_table) (m : name) (ops : list (name * Z)) (acc : option Z) : option Z :=
+  match ops with
+  | [] => acc
+  | (n, v) :: r => last_write c m r (if opt_name_eqb (memoize c n) (memoize c m) then Some v else acc)
+  end.
+
 (* MinidumpContext::read: which context type is chosen.
    `match md::ProcessorArchitecture::from_u16(system_info.raw.processor_architecture)`: the first arm that matches the
    architecture number (no arm: `_ => Err(UnknownCpuContext)`, also for numbers from_u16 does not know); the arm reads its
